@@ -18,6 +18,7 @@ import ast
 import os
 
 from .. import translate
+from . import normalize
 
 IV = "fairlearn/utils/_input_validation.py"
 TO = "fairlearn/postprocessing/_threshold_optimizer.py"
@@ -34,7 +35,7 @@ def _bad(msg):
 
 def _parse(repo, rel):
     with open(os.path.join(repo, rel)) as f:
-        return ast.parse(f.read())
+        return normalize.parse(f.read())
 
 
 def _top_fn(tree, name):
